@@ -499,3 +499,41 @@ def witness(cfg: CFG, pred: dict, node: N, state) -> list[str]:
             path.append(f"L{n.line}")
         key = pred[key]
     return list(reversed(path))[-25:]
+
+
+class PathSummary:
+    __slots__ = ("conds", "ret", "nodes", "raised", "stmts")
+
+    def __init__(self):
+        self.conds: list[tuple[ast.AST, bool]] = []
+        self.ret: ast.AST | None = None
+        self.nodes: list[N] = []
+        self.raised = False
+        self.stmts: list[ast.stmt] = []
+
+
+def path_summaries(fn: ast.FunctionDef, body=None, max_paths: int = 2000, **kw) -> list[PathSummary]:
+    """Every entry->exit path of a (small) function as (branch conditions, statements, return)."""
+    cfg = CFG(fn, body=body, **kw)
+    out = []
+    for path in cfg.paths(max_paths=max_paths):
+        ps = PathSummary()
+        ps.raised = path[-1] is cfg.raise_exit
+        for i, n in enumerate(path):
+            lab = None
+            if i + 1 < len(path):
+                for m, l in n.succ:
+                    if m is path[i + 1]:
+                        lab = l
+                        break
+            ps.nodes.append(n)
+            if lab == "exc":
+                continue
+            if n.kind == "test" and lab in ("true", "false"):
+                ps.conds.append((n.ast.test, lab == "true"))
+            if n.kind == "stmt":
+                ps.stmts.append(n.ast)
+                if isinstance(n.ast, ast.Return):
+                    ps.ret = n.ast.value if n.ast.value is not None else ast.Constant(value=None)
+        out.append(ps)
+    return out
